@@ -10,6 +10,7 @@
 import PdsVerif.Model.TorchStft
 import PdsVerif.Lemmas.StftStream
 import PdsVerif.Lemmas.Walk
+import PdsVerif.Props.C02
 namespace PdsVerif.C14
 open PdsVerif.Model PdsVerif.Model.Stft PdsVerif.StftArith PdsVerif.StftCanon PdsVerif.Seg PdsVerif.SymIdx
 set_option linter.unusedSectionVars false
@@ -127,5 +128,33 @@ example : TorchStft.frames { L := 4, S := 2, centered := true, kaldi := false } 
 /-- a signal shorter than a frame (but long enough for one): the padding reflects more than once -/
 example : TorchStft.frames { L := 8, S := 1, centered := false, kaldi := false } [1, 2, 3, 4, 5]
     = some (full { L := 8, S := 1, centered := false, kaldi := false } [1, 2, 3, 4, 5]) := by decide
+
+
+/-! ## the capstone for the port: the stored coefficient, in the property's words -/
+
+open PdsVerif.Dft PdsVerif.Gen.FrameCoeff PdsVerif.FrameCoeffTie PdsVerif.C02 in
+/-- **The PyTorch port stores the documented coefficient.**  The port's own statements (regenerated from
+`pytorch_stft_frame_computer`: per-segment `square of the 2-norm` / `sum of magnitudes`, doubling of every segment for
+real banks, `val = val + val_f`, `clamp_min(eps).log()` after stacking), run over the port's own segment walk
+(`Walk.runTorch`, cut into segments in any way) on `rfft`'s half spectrum with conjugation on the mirrored pass, give
+
+  `logFloor( (2 if real) · Σ_{b < D} |X[b] · H[b]|^p )`
+
+— the same value `C02.stft_coefficient_spec` proves for the NumPy computer, hence "equal in value" for every
+configuration, DFT size and frame. -/
+theorem torch_coefficient_spec (D start len : Nat) (hD : 0 < D) (hlen : len ≤ D) (x : Nat → ℂ)
+    (hx : ∀ n, (starRingEnd ℂ) (x n) = x n) (tap : Nat → ℂ) (p isReal useLog : Bool) (floor : ℝ)
+    (segs : List (List Walk.Hit)) (hsegs : segs.flatten = Walk.runTorch D start len) :
+    torch_final useLog floor
+        (segs.foldl (fun acc s => torch_accum acc (torch_segval p isReal (s.map fun h => ‖readHit D x h * tap h.tap‖))) 0)
+      = logFloor useLog floor ((if isReal then 2 else 1) *
+          ∑ b ∈ Finset.range D, entry p ‖dft D x (b : ℤ) * rebuilt D start len tap b‖) := by
+  have h1 : segs.foldl (fun acc s => torch_accum acc (torch_segval p isReal (s.map fun h => ‖readHit D x h * tap h.tap‖))) 0
+      = (segs.map fun s => s.map fun h => ‖readHit D x h * tap h.tap‖).foldl
+          (fun acc s => torch_accum acc (torch_segval p isReal s)) 0 := by
+    rw [List.foldl_map]
+  rw [h1, torch_coeff_eq_np, List.foldl_map]
+  exact stft_coefficient_spec D start len hD hlen x hx tap p isReal useLog floor segs
+    (hsegs.trans (torch_walk_eq_numpy_walk D start len))
 
 end PdsVerif.C14
